@@ -63,11 +63,11 @@ def rnd_msg(rng):
 
 def events(ctx):
     rng = ctx.rng
-    for _ in range(ctx.q(8000, 400000)):
+    for _ in range(ctx.q(30000, 1000000)):
         k, p = rnd_msg(rng)
         yield record("msg.rt", {"kind": k, "p": p, "via": rng.choice(["unpack", "from_tlv", "holder"])})
     tag = [99, 102, 100, 112]
-    for _ in range(ctx.q(8000, 400000)):
+    for _ in range(ctx.q(30000, 1000000)):
         c = rng.randrange(6)
         if c == 0:
             v = rb(rng, rng.randrange(0, 12))
